@@ -17,6 +17,7 @@ EXPLANATION = (
     "(a Drop impl that modifies a shared atomic counter) must not be live across a yield in a client-cancellable body. "
     "Decides these structural necessary conditions, not the state after dropping at each of the k polls.")
 EXPLANATION += (" " + 'X3 also treats mem::replace of IndexStruct.inner as a move-out and requires that an awaited hand-back callee cannot really suspend: core.may_suspend follows awaits down to leaf futures (external futures suspend; an async fn of this crate suspends only if one of its awaits does).')
+EXPLANATION += (" " + 'X6 = C03.I10.')
 ASSUMPTIONS = ["only the spawn_blocking/block_in_place backend is compiled (async-io-rio is not part of the pinned build)"]
 
 
